@@ -30,6 +30,9 @@
 //!   release            every guard is given back (the harness drops its own, every holder's release is sent)
 //!   pause / resume     `Owner::pause()` / `Owner::resume()` on the owner the derived was created under (after its first run)
 //!   cfg effect kinds `dp` / `dq`: the subscriber PEEKS: polls `by_ref()` / `.await` once with `now_or_never()` and drops it
+//!   cfg kind `k!n` / `k!!n` (plain kinds, one source, no effect): the derived's function WRITES its own source during its first
+//!                      synchronous run (`let v = s.get(); if v < n { s.set(n) }`); `!!`: the initial future is ready at once
+//!                      (the harness completes fetch 0 inside the function), `!`: it is pending as usual
 //!   cfg kind `k~chain`: the handle under test is obtained from the constructed one by conversions: `a` = `.into()` the
 //!                      `Arc…` type, `r` = `.into()` the arena type, `c` = `.clone()` (e.g. `local-arc~r`, `res~ar`, `arena~ac`)
 //!   a 6th cfg field (plain kinds, `sig` only) gives the fetcher's reads as `<body>/<pre>/<post>`, each `-` or a
@@ -243,6 +246,27 @@ fn fetcher_fx(sh: Sh, srcs: Vec<ArcRwSignal<u32>>, fx: Fx) -> impl Fn() -> Fut +
                 Err(_) => futures::future::pending().await,
             }
         })
+    }
+}
+
+/// the function writes the source it has just read, during its first run only and only while the value is below `k`
+fn fetcher_self_write(sh: Sh, srcs: Vec<ArcRwSignal<u32>>, k: u32, instant: bool) -> impl Fn() -> Fut + Send + Sync + 'static {
+    let first = std::sync::atomic::AtomicBool::new(true);
+    move || {
+        let v = srcs[0].get();
+        let first = first.swap(false, std::sync::atomic::Ordering::Relaxed);
+        if first && v < k {
+            srcs[0].set(k);
+        }
+        let fut = start_fetch(&sh, vec![v]);
+        if first && instant {
+            // the initial future is ready when the constructor polls it
+            let tx = sh.lock().unwrap().fetches[0].tx.take();
+            if let Some(tx) = tx {
+                let _ = tx.send(fetch_fn(&[v]));
+            }
+        }
+        fut
     }
 }
 
@@ -583,6 +607,8 @@ struct Live {
     used_mset: bool,
     /// `pause` was used in this case; the owner is paused now; a source write / refetch was made while it was and none since
     imm: Option<reactive_graph::effect::ImmediateEffect>,
+    /// cfg kind `k!n` / `k!!n`: the function writes its own source (to `n`) during its first run; ready at once
+    self_write: Option<(u32, bool)>,
     used_pause: bool,
     paused: bool,
     missed_while_paused: bool,
@@ -632,6 +658,7 @@ impl Live {
             used_guards: false,
             used_mset: false,
             imm: None,
+            self_write: None,
             used_pause: false,
             paused: false,
             missed_while_paused: false,
@@ -696,6 +723,13 @@ impl Live {
                 self.tags.insert("reads-after-await");
             }
             Dv::new(kind, init, fetcher_fx(self.sh.clone(), self.srcs.clone(), fx))
+        } else if let Some((k, instant)) = self.self_write {
+            self.tags.insert(if instant { "self-write-first-run-ready-at-once" } else { "self-write-first-run" });
+            let d = Dv::new(kind, init, fetcher_self_write(self.sh.clone(), self.srcs.clone(), k, instant));
+            if self.cur_src[0] < k {
+                self.cur_src[0] = k;
+            }
+            d
         } else {
             Dv::new(kind, init, fetcher(self.sh.clone(), self.srcs.clone(), via))
         };
@@ -960,6 +994,21 @@ impl Live {
             if self.dv.is_some() {
                 return BAD.into();
             }
+            let (kind, self_write) = match kind.split_once('!') {
+                None => (*kind, None),
+                Some((k, rest)) => {
+                    let (instant, n) = match rest.strip_prefix('!') {
+                        Some(n) => (true, n),
+                        None => (false, rest),
+                    };
+                    let Some(n) = num(n) else { return BAD.into() };
+                    if !matches!(k, "arc" | "arena" | "arc-unsync" | "arena-unsync") || w.len() != 5 || *init != "-" || *eff != "none" || srcs.contains(',') {
+                        return BAD.into();
+                    }
+                    (k, Some((n, instant)))
+                }
+            };
+            let kind = &kind;
             let (kind, conv) = match kind.split_once('~') {
                 None => (*kind, ""),
                 Some((k, c)) => {
@@ -1026,6 +1075,7 @@ impl Live {
                     None => return BAD.into(),
                 },
             };
+            self.self_write = self_write;
             self.configure(kind, vs, init, eff, via_memo, fx);
             if !conv.is_empty() {
                 // every later op goes through the converted handle; the constructed one is dropped
@@ -1774,6 +1824,23 @@ fn gen_sync_observer(g: &mut Gen, thorough: bool) {
     }
 }
 
+/// the derived's function writes its own source during its first synchronous run (guarded: only while the value is
+/// below 3), with the initial future ready at once (`!!`) and pending (`!`); then anything
+fn gen_self_write(g: &mut Gen, thorough: bool) {
+    let mut cfgs: Vec<String> = vec![];
+    for k in KINDS {
+        for m in ["!!3", "!3"] {
+            for src in [1, 5] {
+                cfgs.push(format!("cfg {k}{m} {src} - none"));
+            }
+        }
+    }
+    let alphabet = ["set", "refetch", "complete last", "attach", "poll 0", "idle"];
+    for len in 1..=(if thorough { 4 } else { 3 }) {
+        gen_exhaustive_cfgs(g, len, &alphabet, &cfgs, &format!("sw{len}-"));
+    }
+}
+
 /// dependents that PEEK at the value (`by_ref()` / `.await` polled once with `now_or_never()` and dropped) during a
 /// first load: they must run again when the load has finished
 fn gen_peek(g: &mut Gen, thorough: bool) {
@@ -2070,6 +2137,7 @@ fn generate(seed: u64, n: usize, path: &str, tier: &str) -> std::io::Result<()> 
     gen_pause(&mut g, thorough);
     gen_peek(&mut g, thorough);
     gen_sync_observer(&mut g, thorough);
+    gen_self_write(&mut g, thorough);
     if thorough {
         gen_exhaustive(&mut g, 4, &alphabet, &EFFS, "x4-");
         gen_exhaustive(&mut g, 5, &core, &EFFS, "y5-");
